@@ -208,6 +208,7 @@ void h_lbuf_save(void)
 char g_lbobj[16];
 static char g_outbuf[2];	/* what sbuf_buf() hands out in the substitute unit */
 char *g_flags;		/* where the last re_read() left the argument pointer: the flags of :s */
+int g_has_g;		/* that tail contains a 'g' */
 
 /* recorded splices / register / mark operations of the line commands */
 struct ghost_edit { int calls; char *txt; int beg, end; int len0; int yank_calls, yank_reg, yank_beg, yank_end; int mark_calls, mark, mark_pos; char *reg_buf; int cp_calls, cp_beg, cp_end; char *cp_ret; int print_lines, print_first, print_last; } X;
@@ -396,7 +397,7 @@ struct ghost_wr { long mtime0; int dirty0; int own; int whole; int force; char *
  * clauses are the assertions of the harness (they need pre-state snapshots of several objects) */
 int ec_cmd_frame_contract(char *loc, char *cmd, char *arg, char *txt)
 __CPROVER_requires(loc != 0 && cmd != 0 && arg != 0)
-__CPROVER_assigns(E, B, X, S, GW, xgdep, g_flags, loc[0], loc[1], __CPROVER_object_whole(bufs), xrow, xoff, xtop, xleft, xtd, xquit, g_dup_src, g_dup_dst, g_len,
+__CPROVER_assigns(E, B, X, S, GW, xgdep, g_flags, g_has_g, loc[0], loc[1], __CPROVER_object_whole(bufs), xrow, xoff, xtop, xleft, xtd, xquit, g_dup_src, g_dup_dst, g_len,
 	__CPROVER_object_whole(xkwd), __CPROVER_object_whole(xrep), xkwddir)
 __CPROVER_frees(bufs[0].path)
 __CPROVER_ensures(1)
@@ -1086,7 +1087,7 @@ void lbuf_edit(struct lbuf *lb, char *buf, int beg, int end)
 		__CPROVER_assert(end == beg + 1 && S.beg <= beg && beg < S.end, "ec_substitute: only an addressed line is replaced, by exactly one splice of that line");
 		__CPROVER_assert(beg > S.last_edit, "ec_substitute: lines are rewritten in increasing order, each at most once");
 		__CPROVER_assert(S.matches >= 1, "ec_substitute: a line without a match is left alone");
-		__CPROVER_assert(S.matches == 1 || (g_flags != 0 && verif_strchr(g_flags, 'g') != 0), "ec_substitute: without the g flag (what follows the replacement) only the first match of a line is replaced");
+		__CPROVER_assert(S.matches == 1 || g_has_g, "ec_substitute: without the g flag (what follows the replacement) only the first match of a line is replaced");
 		__CPROVER_assert(S.in_pos == S.L && !S.bad, "ec_substitute: the rewritten line accounts for every byte of the original line (prefixes, matches, tail), in order");
 		__CPROVER_assert(buf == g_outbuf, "ec_substitute: the splice text is the string buffer built for this line");
 		S.last_edit = beg;
@@ -1405,6 +1406,7 @@ char *re_read(char **src)
 	__CPROVER_assume(off < k && k <= g_sl);
 	*src = *src - off + k;
 	g_flags = *src;
+	g_has_g = verif_strchr(g_flags, 'g') != 0;
 	char *r = malloc(2);
 	r[0] = nondet_char();
 	r[1] = 0;
